@@ -80,6 +80,16 @@ class HalfTagger:
                     return frozenset([1 if v > 0 else 0])
             except ValueError:
                 pass
+        # abs(<constant>) / abs(x) of a known number: a positive scale selects the second half whatever the
+        # sign of what went in
+        if isinstance(e2, ast.Call) and isinstance(e2.func, (ast.Name, ast.Attribute)) and \
+           (dotted(e2.func) or '').split('.')[-1] in ('abs', 'fabs', 'absolute') and len(e2.args) == 1:
+            inner = e2.args[0]
+            try:
+                if is_const(inner) and isinstance(const_value(inner), (int, float)) and const_value(inner) != 0:
+                    return frozenset([1])
+            except ValueError:
+                pass
         if isinstance(e2, ast.Name) and e2.id in self.func.all_params:
             b = self.bindings.get(e2.id)
             if b is not None and b[1] is not None:
